@@ -58,6 +58,11 @@ def validate_events(module, events, env=None, cfg="Val.cfg"):
     return r.tagged("VIOL"), ok
 
 
+def copy_row(r):
+    import copy
+    return copy.deepcopy(r)
+
+
 def bump(pair, k=1):
     """next representable double (k ulps up) of a [hi, lo] pair"""
     x = vlib.pair_to_float(pair)
@@ -100,6 +105,8 @@ def run():
                           open(os.path.join(vlib.SPEC, "MC_PolyDivide_defect2.cfg")).read())
     expect_counterexample(t, "SplineSweep{sweep_uses_the_row_s_own_interval} breaks the continuity of the slope", "MC_SplineSweep",
                           open(os.path.join(vlib.SPEC, "MC_SplineSweep_defect.cfg")).read())
+    expect_counterexample(t, "HermiteDD{purge_leading_with_default_tolerance} loses a leading coefficient above the caller's tolerance", "MC_HermiteDD",
+                          open(os.path.join(vlib.SPEC, "MC_HermiteDD_defect.cfg")).read())
     # ---- unbounded lemmas of the Brent design (TLAPS) -----------------------------------------------------
     import shutil
     import tempfile
@@ -145,6 +152,20 @@ def run():
     bent = dict(victim, q=[[bump(z[0]), z[1]] if j == 0 else z for j, z in enumerate(victim["q"])])
     fncommon.validate(ctx0, [bent], "Trace_PolyDivide", "std2", nshards=1)
     t.check("a quotient coefficient moved by one ulp is rejected by Trace_PolyDivide", len(ctx0.drift) == nd0 + 1)
+    del ctx0.drift[nd0:]
+    from checks import c15
+    hcases = [c for c in c15.seeded(ctx0, random.Random(9), 120) if c["kind"] == "hermite" and len(c["xs"]) >= 2][:25]
+    for k, c in enumerate(hcases):
+        c["id"] = k + 1
+    hrows = [{"id": r["id"], "kind": r["kind"], "cx": r["cx"], "xs": r["xs"], "ys": r["ys"], "ds": r["ds"], "tol": r["tol"],
+              "obs": {"st": r["obs"]["st"], "coefs": r["obs"].get("coefs", [])}} for r in fncommon.observe(ctx0, "interp", hcases, "sth", nproc=1)]
+    nd0 = len(ctx0.drift)
+    fncommon.validate(ctx0, hrows, "Trace_HermiteDD", "sth", nshards=1)
+    t.check("clean hermite() results explained bit for bit by HermiteDD over doubles", len(ctx0.drift) == nd0 and len(hrows) == 25, "%d runs" % len(hrows))
+    hb = copy_row(hrows[0])
+    hb["obs"]["coefs"][0] = [bump(hb["obs"]["coefs"][0][0]), hb["obs"]["coefs"][0][1]]
+    fncommon.validate(ctx0, [hb], "Trace_HermiteDD", "sth2", nshards=1)
+    t.check("a Hermite coefficient moved by one ulp is rejected by Trace_HermiteDD", len(ctx0.drift) == nd0 + 1)
     del ctx0.drift[nd0:]
     from checks import c16
     scases = [c for c in c16.seeded(ctx0, random.Random(7), 60) if c["err_case"] == "none" and len(c["xs"]) >= 3][:20]
